@@ -6,3 +6,17 @@ package stateless
 import "github.com/ipfs/ipfs-cluster/pintracker/optracker"
 
 func verifGate(point string, op *optracker.Operation) {}
+
+// Trace hooks of the operation queues and workers: compiled out (see verif_on.go).
+
+func verifTracker(spt *Tracker) {}
+
+func verifOp(op *optracker.Operation, ev string) {}
+
+func verifRet(op *optracker.Operation, err error) {}
+
+func verifQBegin() bool { return false }
+
+func verifQEnd(locked bool, op *optracker.Operation, ev string, n int) {}
+
+func verifShutdown(spt *Tracker) {}
